@@ -599,6 +599,13 @@ func (m *Model) forCases() *loopCaseResult {
 		setOrNil(fPost, !sc.noPost, pnode)
 		setOrNil(fAlt, sc.alt, alt)
 		envIn := w.newEnv()
+		outerLoop := w.obj("Obj", nil) // the loop object of an enclosing @each
+		if mp, isM := envIn.fields[w.fStore].(*iMap); isM {
+			k := constant.MakeString("loop")
+			mp.keys = append(mp.keys, k.ExactString())
+			mp.vals[k.ExactString()] = outerLoop
+			mp.kval[k.ExactString()] = k
+		}
 		if sc.postOwn {
 			if mp, isM := envIn.fields[w.fStore].(*iMap); isM && mp.vals != nil {
 				k := constant.MakeString("n")
@@ -691,6 +698,10 @@ func (m *Model) forCases() *loopCaseResult {
 				passes++
 				events = append(events, "body")
 				checkScope("the body", args[2])
+				// @for has no loop object of its own: inside an @each, `loop` is still the @each's
+				if lo, has := w.lookup(args[2], "loop", nil); problem == "" && (!has || lo != any(outerLoop)) {
+					problem = fmt.Sprintf("pass %d: `loop` in the body of the @for is not the loop object of the enclosing @each any more (the @for binds one of its own): loop.index / loop.last of the element are lost inside a nested @for", passes)
+				}
 				res := w.bodyResult(sc.special[passes], passes)
 				bodyResults = append(bodyResults, res)
 				return res, true
